@@ -37,54 +37,22 @@ Lemma cp_first_deposit_value a b : 0 <= a -> 0 <= b -> Z.sqrt (a * b) * Z.sqrt (
 Proof. intros. apply Z.sqrt_spec. nia. Qed.
 
 (* ---------- withdrawals ---------- *)
-(* refund of one asset: floor(reserve * floor(amount*10^18/supply) / 10^18) *)
-Definition withdraw_refund (reserve amount supply : Z) : Z := reserve * (amount * DEC / supply) / DEC.
+(* refund of one asset: floor(reserve * amount / supply)  (exact pro-rata share, rounded down) *)
+Definition withdraw_refund (reserve amount supply : Z) : Z := reserve * amount / supply.
 
 Lemma withdraw_refund_upper r a S : 0 <= r -> 0 <= a -> 0 < S -> withdraw_refund r a S * S <= r * a.
+Proof. intros. unfold withdraw_refund. rewrite Z.mul_comm. apply Z.mul_div_le. lia. Qed.
+
+(* at least pro-rata minus one smallest unit *)
+Lemma withdraw_refund_lower r a S : 0 <= r -> 0 <= a -> 0 < S -> r * a < (withdraw_refund r a S + 1) * S.
 Proof.
-  intros Hr Ha HS. unfold withdraw_refund. pose proof DEC_pos as HD.
-  set (q := a * DEC / S). assert (Hq : 0 <= q /\ q * S <= a * DEC).
-  { unfold q. split; [apply Z.div_pos; nia | rewrite Z.mul_comm; apply Z.mul_div_le; lia]. }
-  assert (H1 : r * q / DEC * DEC <= r * q) by (rewrite Z.mul_comm; apply Z.mul_div_le; lia).
-  assert (0 <= r * q / DEC) by (apply Z.div_pos; nia).
-  nia.
+  intros. unfold withdraw_refund.
+  pose proof (Z.mod_pos_bound (r * a) S ltac:(lia)). pose proof (Z.div_mod (r * a) S ltac:(lia)). nia.
 Qed.
 
-(* lower bound satisfied by the CURRENT code: pro-rata minus one unit minus reserve/10^18 (the share ratio is
-   truncated to 18 digits before it is multiplied) *)
-Lemma withdraw_refund_lower r a S : 0 <= r -> 0 <= a -> 0 < S ->
-  r * a <= (withdraw_refund r a S + 1) * S + r * S / DEC + S.
-Proof.
-  intros Hr Ha HS. unfold withdraw_refund. pose proof DEC_pos as HD.
-  set (q := a * DEC / S).
-  assert (Hq : a * DEC < (q + 1) * S).
-  { unfold q. pose proof (Z.mod_pos_bound (a * DEC) S HS). pose proof (Z.div_mod (a * DEC) S ltac:(lia)). nia. }
-  set (t := r * q / DEC).
-  assert (Ht : r * q < (t + 1) * DEC).
-  { unfold t. pose proof (Z.mod_pos_bound (r * q) DEC HD). pose proof (Z.div_mod (r * q) DEC ltac:(lia)). nia. }
-  assert (Hrs : r * S <= (r * S / DEC + 1) * DEC).
-  { pose proof (Z.mod_pos_bound (r * S) DEC HD). pose proof (Z.div_mod (r * S) DEC ltac:(lia)). nia. }
-  (* r*a*DEC < r*(q+1)*S = r*q*S + r*S < (t+1)*DEC*S + r*S *)
-  assert (r * a * DEC <= r * q * S + r * S) by nia.
-  assert (r * q * S <= (t + 1) * DEC * S) by nia.
-  nia.
-Qed.
-
-(* the literal "at least pro-rata minus one unit" is false of the current code once a reserve exceeds 10^18 *)
-Lemma withdraw_refund_literal_refuted :
-  exists r a S, 0 <= r /\ 0 <= a /\ 0 < S /\ a <= S /\ (withdraw_refund r a S + 1) * S < r * a.
-Proof.
-  exists (10 ^ 24), (10 ^ 6), (3 * 10 ^ 6). repeat split; vm_compute; try reflexivity; try discriminate.
-Qed.
-
-(* burning all-but-nothing: a holder whose share is at least 10^-18 of the supply and worth at least one unit of
-   some asset gets a non-empty refund *)
-Lemma withdraw_refund_positive r a S :
-  0 <= r -> 0 < S -> 0 <= a -> DEC <= r * (a * DEC / S) -> 0 < withdraw_refund r a S.
-Proof.
-  intros Hr HS Ha H. unfold withdraw_refund. pose proof DEC_pos.
-  apply Z.div_str_pos. lia.
-Qed.
+(* a holder can redeem any LP amount worth at least one unit of some asset *)
+Lemma withdraw_refund_positive r a S : 0 < S -> S <= r * a -> 0 < withdraw_refund r a S.
+Proof. intros HS H. unfold withdraw_refund. apply Z.div_str_pos. lia. Qed.
 
 (* ---------- withdraw_liquidity: exactly what is paid and burned ---------- *)
 Lemma withdraw_spec w sender funds pid s' msgs :
@@ -110,16 +78,13 @@ Proof.
   apply bind_ok in H. destruct H as [bm [Hbm H]]. inversion H; subst s' msgs; clear H.
   unfold burn_lp_msg in Hbm. apply bind_ok in Hbm. destruct Hbm as [[] [_ Hbm]]. inversion Hbm; subst bm.
   exists p, amount, total, refunds_all. repeat split; auto; try lia.
-  - clear - Hra. revert refunds_all Hra. induction (p_assets p) as [|a r IH]; intros ra Hra; cbn [mapM map] in *.
+  - clear - Hra E0. revert refunds_all Hra. induction (p_assets p) as [|a r IH]; intros ra Hra; cbn [mapM map] in *.
     + inversion Hra; reflexivity.
     + apply bind_ok in Hra. destruct Hra as [y [Hy Hra]].
       apply bind_ok in Hra. destruct Hra as [ys [Hys Hra]]. inversion Hra; subst ra.
       rewrite (IH _ Hys). f_equal.
-      unfold dec_from_ratio, dec_mul, dec_floor in Hy. change (1 =? 0) with false in Hy. cbv iota in Hy.
-      apply bind_ok in Hy. destruct Hy as [ad [Had Hy]]. apply chk_ok in Had. destruct Had as [-> _].
-      apply bind_ok in Hy. destruct Hy as [m [Hm Hy]]. apply chk_ok in Hm. destruct Hm as [-> _].
-      apply bind_ok in Hy. destruct Hy as [rr [Hrr Hy]]. apply chk_ok in Hrr. destruct Hrr as [-> _].
-      inversion Hy; subst. rewrite Z.div_1_r, mul_DEC_div. reflexivity.
+      apply bind_ok in Hy. destruct Hy as [rr [Hrr Hy]]. unfold mul_ratio in Hrr. rewrite E0 in Hrr.
+      apply chk_ok in Hrr. destruct Hrr as [-> _]. inversion Hy; subst. reflexivity.
   - eexists; reflexivity.
 Qed.
 
